@@ -31,9 +31,9 @@ ASSUMPTIONS = [
     "snapshot = bytes of the value buffer + dtype + dims + labels + deep copies of attrs and axis attrs",
     "later in-place operations on another object (e.g. a Dataset variable sharing the inserted array's buffer) are outside the statement",
 ]
-MANDATORY = ["copy-mutate", "operand:unsorted", "operand:nan", "b:subset", "b:superset", "b:disjoint", "b:same"] + ["ok:" + n for n in ops.NAMES]
+MANDATORY = ["copy-mutate", "operand:unsorted", "operand:nan", "b:subset", "b:superset", "b:disjoint", "b:same"] + ["ok:" + n for n in ops.NAMES if n not in ops.REFUSED]
 
-ATTRS = {"units": "m", "hist": [1, 2], "nested": {"k": [1]}, "tags": {1, 2}}       # (a set: metadata that JSON cannot encode)
+ATTRS = {"units": "m", "hist": [1, 2], "nested": {"k": [1]}, "tags": {1, 2}, "name": "own-name"}       # (a set: metadata that JSON cannot encode; a name of its own)
 AXATTRS = {"long_name": "first axis", "lst": [3]}
 
 
@@ -77,7 +77,7 @@ def case_st(draw):
                 l = [float(x) for x in l]       # the same labels as floats: equal, yet of another type
             bl.append(l)
         else:
-            bl.append(draw(gen.labels(2, kinds="if", order="shuf")))
+            bl.append(draw(gen.labels(draw(st.integers(1, 2)), kinds="if", order="shuf")))      # (a new dimension may hold a single label)
     b = {"dims": bd, "labels": bl, "vk": "f", "base": 60}
     muts = draw(st.lists(st.tuples(st.integers(0, 11), st.integers(0, 20)).map(list), min_size=1, max_size=8))
     return {"a": a, "b": b, "k": draw(st.integers(0, 10)), "rel": rel, "muts": muts}
